@@ -140,6 +140,7 @@ theorem tracks_partial {s s' : State} {op : Op} (hi : Inv13 s) (h : stepRel s op
   | wpLock k j v => exact wpLock_inv13 h hi
   | rpLock j v => exact inv13_frame (rpLock_frame13 h) hi
   | rpUnlock j v => exact inv13_frame (rpUnlock_frame13 h) hi
+  | readRedeem k i j p => exact inv13_frame (readRedeem_frame13 h) hi
   | tick dt => simp only [step] at h; cases h; exact inv13_frame ⟨rfl, rfl, fun _ => rfl, fun _ => rfl⟩ hi
   | noop => simp only [step] at h; cases h; exact hi
 
